@@ -145,7 +145,9 @@ fn cfg(mode: u8) -> RtcConfiguration {
     c
 }
 /// remote SDP through the live signaling entry point of a fresh PeerConnection (state `stable`), then an answer attempt
-fn set_remote(l: &LivePc, mode: u8, text: &str) -> &'static str {
+fn set_remote(l: &LivePc, mode: u8, text: &str) -> &'static str { set_remote_mid(l, mode, text).0 }
+/// also returns `next_mid` of the connection afterwards (hook `verif_snapshot`)
+fn set_remote_mid(l: &LivePc, mode: u8, text: &str) -> (&'static str, u16) {
     l.rt.block_on(async {
         let pc = PeerConnection::new(cfg(mode));
         let r = match SessionDescription::parse(SdpType::Offer, text) {
@@ -154,8 +156,9 @@ fn set_remote(l: &LivePc, mode: u8, text: &str) -> &'static str {
                 Ok(Err(_)) => "ret", Err(_) => "timeout" },
             Err(_) => "ret",
         };
+        let nm = pc.verif_snapshot().next_mid;
         pc.close();
-        r
+        (r, nm)
     })
 }
 fn run_sdpset(run: &mut Run, live: &LivePc, mode: u8, s: &str, nt: bool) {
@@ -171,9 +174,9 @@ pub fn run_sdpmid(run: &mut Run, live: &LivePc, mid: &str, nt: bool) {
     let text = TEMPLATE.replace("a=mid:1\r\n", &format!("a=mid:{mid}\r\n")).replace("BUNDLE 0 1 2", &format!("BUNDLE 0 {mid} 2"));
     let l = std::panic::AssertUnwindSafe(live);
     exec(run, "sdpmid", mid, "PeerConnection::set_remote_description", nt, None, move || {
-        let r = set_remote(&l, 0, &text);
+        let (r, nm) = set_remote_mid(&l, 0, &text);
         if r == "timeout" { panic!("set_remote_description did not return within 5 s"); }
-        r.to_string()
+        format!("{r} {nm}")
     });
 }
 
